@@ -2,9 +2,9 @@
 EXTENDS TraceIO, TimestampsProp
 ResetAct == TReset(Ev.rates, Ev.pl)
 StepAct ==
-  \/ Is("first")  /\ First(Ev.tr, Ev.ts, Ev.pts)
-  \/ Is("dec")    /\ Dec(Ev.tr, Ev.ts, Ev.pts)
-  \/ Is("late")   /\ Late(Ev.tr, Ev.ts, Ev.pts, Ev.el)
+  \/ Is("first")  /\ First(Ev.tr, Ev.ts, Ev.pts, Ev.at)
+  \/ Is("dec")    /\ Dec(Ev.tr, Ev.ts, Ev.pts, Ev.at)
+  \/ Is("late")   /\ Late(Ev.tr, Ev.ts, Ev.pts, Ev.at)
   \/ Is("ntpmap") /\ NtpMap(Ev.rtp, Ev.t)
   \/ Is("ntpget") /\ NtpGet(Ev.rtp, Ev.t, Ev.rem)
   \/ Is("ntpinv") /\ NtpInv(Ev.diff)
